@@ -6,8 +6,9 @@ import Logrange.Generated.C17
 /-! Model driver for C17 (collector: line reader, parser offsets, scanner worker LTS, mergeDescs). Requests:
 
 * `lr <B> <start> <piece>*`  — pieces: hex bytes (a chunk the source will return), `E` (the source reports EOF once),
-  `X` (the context is cancelled while a Read runs). `readLine` is called until it answers "closed"; a clean `eof`
-  is printed and the calls go on (the file may grow later). Answer: `<hex line | eof>* closed:<pending hex> pos=<n>`.
+  `X` (the context is cancelled while a Read runs). `readLine` is called until it answers "closed"; every `eof`
+  is printed and the calls go on (the caller polls again; a partial line stays in the reader).
+  Answer: `<hex line | eof>* closed:<pending hex> pos=<n>`.
 * `sw <recsPerEvent> <0|1|code> <start> <label>*` — the worker LTS; labels `step r<hex> eof err send conf set wake
   stop cancel persist fpersist`. Answer: the observable fields of the final state.
 * `merge <nOld> (<id> <offset> <size>)* <nNew> (<id> <offset> <size> <restat|->)*` — `mergeDescs`; `restat` is what a
@@ -25,8 +26,8 @@ def lrLoop (B : Nat) : Nat → Parser → List String → List String × Parser
     match readLine B p.lr with
     | (s', .line l) => lrLoop B fuel { lr := s', pos := p.pos + l.length } (hex l :: acc)
     | (s', .eof) => lrLoop B fuel { p with lr := s' } ("eof" :: acc)
-    | (s', .closed q) => ((s!"closed:{hex q}" :: acc).reverse, { p with lr := s' })
-    | (s', .oof q) => ((s!"oof:{hex q}" :: acc).reverse, { p with lr := s' })
+    | (s', .closed) => ((s!"closed:{hex s'.pend}" :: acc).reverse, { p with lr := s' })
+    | (s', .oof) => ((s!"oof:{hex s'.pend}" :: acc).reverse, { p with lr := s' })
 
 def runLr (B start : Nat) (pieces : List Piece) : String :=
   let p := setStreamPos start pieces
